@@ -120,12 +120,18 @@ pub fn build_proof(c: &Case, key: &RecordKey) -> (ant_evm::ProofOfPayment, Vec<[
     }
     let q3 = rec::quote(third, addr, ts_of(0));
     let hashes = vec![own_q.hash().0, q2.hash().0, q3.hash().0];
+    if c.sig == 3 {
+        // peer 2 listed twice: a quote that does not verify for it, followed by a genuine one
+        let mut bad = rec::quote(2, addr, other_ts);
+        bad.signature[7] ^= 0x01;
+        return (rec::proof(vec![(own, own_q), (listed2, bad), (listed2, q2), (third, q3)]), hashes);
+    }
     (rec::proof(vec![(own, own_q), (listed2, q2), (third, q3)]), hashes)
 }
 
 fn describe(c: &Case) -> serde_json::Value {
     json!({"kind": format!("{:?}", c.kind), "prior": format!("{:?}", c.prior),
-        "signatures": (["authentic", "one forged", "one signed by another key"][c.sig]), "self_among_payees": c.self_payee, "all_payees_close": c.all_close,
+        "signatures": (["authentic", "one forged", "one signed by another key", "a payee listed twice, its first quote forged"][c.sig]), "self_among_payees": c.self_payee, "all_payees_close": c.all_close,
         "age": (["fresh", "2h old", "1h in the future"][c.age]), "age_defect_on_own_quote": c.age_on_own,
         "chain": (["paid", "unpaid", "rpc error", "http 503 on every attempt", "http 429 on every attempt", "connection closed on every attempt"][c.chain]), "own_quote_for_this_address": c.own_quote_for_address, "own_quote_content_all_zero": c.own_quote_zero})
 }
@@ -282,7 +288,7 @@ fn unpaid_cases(run: &Run, stub: &Arc<EvmStub>) {
 
 pub fn cases(quick: bool) -> Vec<Case> {
     let mut v = vec![];
-    enumerate::product(&[3, 2, 2, 3, 6, 3, 4, 3, 2], |ix| {
+    enumerate::product(&[4, 2, 2, 3, 6, 3, 4, 3, 2], |ix| {
         let c = Case { sig: ix[0], self_payee: ix[1] == 0, all_close: ix[2] == 0, age: ix[3], chain: ix[4], own_quote_for_address: ix[5] == 0, own_quote_zero: ix[5] == 2, kind: KINDS[ix[6]], prior: [Prior::Absent, Prior::SameVersion, Prior::OtherVersion][ix[7]], age_on_own: ix[8] == 1 };
         if c.age == 0 && c.age_on_own {
             return; // no age defect: the placement flag is irrelevant
@@ -311,7 +317,7 @@ pub fn cases(quick: bool) -> Vec<Case> {
 pub fn main(tier: Option<&str>) {
     let run = Run::new("C03", "model_checking", tier);
     run.rule(
-        "product of six payment conditions (signatures 3 x self-payee 2 x closeness 2 x age 3 (on another payee's or on the own quote) x \
+        "product of six payment conditions (signatures 4 (incl. a payee listed twice with a forged first quote) x self-payee 2 x closeness 2 x age 3 (on another payee's or on the own quote) x \
          chain answer 6 (paid, unpaid, JSON-RPC error, HTTP 503 / 429 / connection closed on every attempt) x quoted address 3 (this address, another address, the all-zero content)) x kind 4 x prior content 3; quick = full product for chunks on an empty store + every single \
          and double fault for the other kinds + single faults on held keys, thorough = full product. Each case runs the real \
          Node::validate_and_store_record on a fresh real SwarmDriver under the default (FIFO) schedule to quiescence, the payment \
